@@ -91,6 +91,8 @@ def bundle(d):
             an.append(f"orphan tag_edit rows for tag {c}")
     for th, et, eid, key, val, cur in d["tag"]:
         put(th, ("tag", et, eid, key, val, tuple(sorted(parents[th])), bool(cur)))
+        if key == "redun.context":
+            an.append(f"context tag {th} present (the context filter of _get_call_node is outside the model)")
     if d.get("handle"):
         an.append("handle rows present (outside the modelled record kinds)")
     return ents, an
@@ -411,7 +413,9 @@ class Check(PropertyCheck):
         "theorem premises NoDup ids / well_typed / wf_tags (is_current iff not superseded) are evaluated in Coq on the dump of every real repository used",
         "SQLite returns call_edge rows of one parent in primary-key index order (parent, child, call_order) when no ORDER BY is given "
         "(the DbIndexOrder variant; validated by the correspondence run)",
-        "_get_call_node is modelled without the optional context filter, which only narrows the candidate set",
+        "_get_call_node is modelled without its context filter (with a context: only nodes tagged with it; without: only "
+        "nodes recorded without one), which only narrows the candidate set; the generated repositories carry no "
+        "redun.context tags (the dump reports one as outside the modelled domain), probes are made without a context",
         "Execution.updated_time, Evaluation, Handle and CallSubtreeTask rows are not part of the records the property lists; "
         "CallSubtreeTask is covered by the cache clause",
     ]
